@@ -1539,6 +1539,11 @@ func setRTPTransceiverCurrentDirection(
 		transceiver, currentTransceivers = findByMid(midValue, currentTransceivers)
 
 		if transceiver == nil {
+			if media.MediaName.Port.Value == 0 {
+				// a rejected media section has no transceiver
+				continue
+			}
+
 			return fmt.Errorf("%w: %q", errPeerConnTranscieverMidNil, midValue)
 		}
 
@@ -3115,6 +3120,11 @@ func (pc *PeerConnection) generateMatchedSDP(
 		kind := NewRTPCodecType(media.MediaName.Media)
 		direction := getPeerDirection(media)
 		if kind == 0 || direction == RTPTransceiverDirectionUnknown {
+			// No transceiver is associated with a media section of an unsupported
+			// type or without a direction. The section still has to be mirrored,
+			// RFC 3264 Section 6: reject it in place instead of leaving it out.
+			mediaSections = append(mediaSections, mediaSection{id: midValue, rejected: media})
+
 			continue
 		}
 
